@@ -644,3 +644,36 @@ fn probe_c18_pointer_after_rollback_misses_late_old_epoch_message() {
     println!("F23 after rollback: epoch {}, m1 state {:?}", g.epoch, bob.get_message(&gid, &m1).unwrap().map(|m| m.state));
     println!("F23 pointer is m0: {}, pointer is m1: {}, first valid listed is m1: {}", g.last_message_id == Some(m0), g.last_message_id == Some(m1), first_valid == Some(m1));
 }
+
+#[test]
+fn probe_c03_removed_and_replaced_in_one_commit() {
+    // F24: a member whose removal is committed together with an Add: the newcomer takes the vacated leaf slot, so
+    // MlsGroup::own_leaf() (the leaf at the own index of the public tree) is Some again on the evicted client.
+    let ak = Keys::generate(); let bk = Keys::generate(); let ck = Keys::generate(); let dk = Keys::generate();
+    let alice = create_test_mdk(); let bob = create_test_mdk(); let carol = create_test_mdk(); let dave = create_test_mdk();
+    let admins = vec![ak.public_key()];
+    let res = alice.create_group(&ak.public_key(), vec![create_key_package_event(&bob, &bk), create_key_package_event(&carol, &ck)], create_nostr_group_config_data(admins)).unwrap();
+    let gid = res.group.mls_group_id.clone();
+    alice.merge_pending_commit(&gid).unwrap();
+    for (m, i) in [(&bob, 0usize), (&carol, 1usize)] {
+        let w = m.process_welcome(&EventId::from_slice(&[i as u8 + 1; 32]).unwrap(), &res.welcome_rumors[i]).unwrap();
+        m.accept_welcome(&w).unwrap();
+    }
+    // Bob leaves: a proposal the admin has to commit
+    let leave = bob.leave_group(&gid).unwrap();
+    let r = alice.process_message(&leave.evolution_event);
+    println!("C03 alice <- bob's leave proposal: {:?}", r.as_ref().map(|x| format!("{x:?}").chars().take(60).collect::<String>()).map_err(|e| e.to_string()));
+    // the auto-commit is dropped (e.g. it lost a race / was never published); the queued proposal stays
+    alice.clear_pending_commit(&gid).unwrap();
+    println!("C03 alice pending removals after clearing the auto-commit: {}", alice.pending_member_changes(&gid).unwrap().removals.len());
+    // the admin's next commit adds Dave and sweeps the queued removal in
+    let add = alice.add_members(&gid, &[create_key_package_event(&dave, &dk)]).unwrap();
+    alice.merge_pending_commit(&gid).unwrap();
+    println!("C03 alice members after the commit: {} (bob still member = {})", alice.get_members(&gid).unwrap().len(), alice.get_members(&gid).unwrap().contains(&bk.public_key()));
+    // Bob processes the commit that removes him
+    let rb = bob.process_message(&add.evolution_event);
+    println!("C03 bob <- commit(remove bob + add dave): {:?}", rb.as_ref().map(|x| format!("{x:?}").chars().take(80).collect::<String>()).map_err(|e| e.to_string()));
+    println!("C03 bob's stored group state afterwards: {:?}", bob.get_group(&gid).unwrap().map(|g| g.state));
+    let g = bob.load_mls_group(&gid).unwrap().unwrap();
+    println!("C03 bob's MLS group: is_active={} own_leaf().is_some()={}", g.is_active(), g.own_leaf().is_some());
+}
